@@ -210,11 +210,11 @@ Returns:
             from mystic.constraints import and_
             constraints = and_(self._constraints, self._strictbounds, onfail=self._strictbounds)
         else: constraints = self._constraints
-        cost = wrap_penalty(cost, self._penalty)
-        cost = wrap_nested(cost, constraints)
         if self._reducer:
            #cost = reduced(*self._reducer)(cost) # was self._reducer = (f,bool)
-            cost = reduced(self._reducer, arraylike=True)(cost)
+            cost = reduced(self._reducer, arraylike=True)(cost) # before penalty
+        cost = wrap_penalty(cost, self._penalty)
+        cost = wrap_nested(cost, constraints)
         # hold on to the 'wrapped' and 'raw' cost function
         self._cost = (cost, raw, ExtraArgs)
         self._live = True
